@@ -512,6 +512,9 @@ class Phase(Angle):
         if string.dtype.kind not in "SU":
             raise ValueError("require string input.")
         count, frac = _parse_strings(string)
+        if np.all(count.imag == 0) and np.all(frac.imag == 0):
+            # Real strings: an exact zero count or fraction must not be taken as imaginary.
+            count, frac = count.real, frac.real
         return cls(count, frac)
 
     @property
